@@ -198,4 +198,62 @@ theorem allAssigned_map_some {α} (x : List α) : allAssigned (x.map some) = .ok
 def winOfYears (g : List Rat → List Rat → YearFn Rat) (Ly Sy : Int) (yearsF : List Int) : WinFn Rat :=
   fun o h x _ _ ix => (applyYears (g o h) Ly Sy (take yearsF ix) x).bind allAssigned
 
+/-! ### general (not necessarily location–scale) families: gamma, beta, … -/
+
+/-- `NoClip` for an arbitrary family -/
+def NoClipG {P} (Fam : Family P) (t : Rat) (p : P) (xs : List Rat) : Prop :=
+  ∀ x ∈ xs, t ≤ Fam.cdf p x ∧ Fam.cdf p x ≤ 1 - t
+
+instance {P} (Fam : Family P) (t : Rat) (p : P) (xs : List Rat) : Decidable (NoClipG Fam t p xs) := by
+  unfold NoClipG; exact inferInstance
+
+/-- the one law of a distribution family the fixed point needs: `ppf ∘ cdf = id` at the values concerned (holds on the
+    support of every continuous scipy family; assumed, trusted base) -/
+def PpfCdfOn {P} (Fam : Family P) (p : P) (xs : List Rat) : Prop := ∀ x ∈ xs, Fam.ppf p (Fam.cdf p x) = x
+
+/-! ### CDFt's stochastic singularity removal on strictly positive series -/
+
+theorem ssrRandomize_of_ne_zero : ∀ (x u : List Rat), (∀ v ∈ x, v ≠ 0) → x.length ≤ u.length → ssrRandomize x u = x
+  | [], _, _, _ => by simp [ssrRandomize]
+  | a :: x, [], _, h => by simp at h
+  | a :: x, r :: u, hx, h => by
+      have ha : a ≠ 0 := hx a List.mem_cons_self
+      have ih := ssrRandomize_of_ne_zero x u (fun v hv => hx v (List.mem_cons_of_mem _ hv)) (by simpa using h)
+      unfold ssrRandomize at ih ⊢
+      simp only [List.zipWith_cons_cons, ha, if_false, ih]
+
+/-- no value of a strictly positive `cm_future` lies below the SSR threshold (the smallest positive value of the three
+    samples), so `_set_values_below_threshold_to_zero` changes nothing -/
+theorem ssrAfter_of_pos (obs H F : List Rat) (hF : ∀ v ∈ F, 0 < v) : ssrAfter (ssrThreshold obs H F) F = F := by
+  unfold ssrAfter
+  apply map_eq_self
+  intro v hv
+  have hmem : v ∈ obs.filter (fun v => decide (v > 0)) ++ H.filter (fun v => decide (v > 0)) ++ F.filter (fun v => decide (v > 0)) := by
+    apply List.mem_append_right
+    exact List.mem_filter.mpr ⟨hv, by simpa using hF v hv⟩
+  have hthr : ssrThreshold obs H F ≤ v := by
+    unfold ssrThreshold
+    simp only []
+    split
+    · exact le_of_lt (hF v hv)
+    · exact minQ_le hmem
+  rw [if_neg (not_lt.mpr hthr)]
+
+/-- the loop over year windows with a centre-dependent per-window function (SSR draws afresh in every window) -/
+theorem applyYearsC_fixed_on {α} (g : Int → YearFn α) (L S h : Int) (years : List Int) (fut : List α)
+    (hS : S = 2 * h + 1) (hh : 0 ≤ h) (hSL : S ≤ L) (hlen : years.length = fut.length)
+    (hg : ∀ c ∈ yearCenters S years,
+      g c (Py.selectWhere fut (yearMask years (yearsInWindow L c))) (Py.whereTrue (yearMask years (yearsInWindow L c)))
+        = .ok (Py.selectWhere fut (yearMask years (yearsInWindow L c)))) :
+    applyYearsC g L S years fut = .ok (fut.map some) := by
+  let g' : YearFn α := fun x _ => .ok x
+  have hcongr : applyYearsC g L S years fut = applyYears g' L S years fut := by
+    unfold applyYearsC applyYears
+    apply Lemmas.Lift.runLoop_congr
+    intro c hc
+    unfold yearWrites
+    simp only [hg c hc, g']
+  rw [hcongr]
+  exact Lemmas.Years.applyYears_fixed g' (fun _ _ => rfl) L S h years fut hS hh hSL hlen
+
 end Lemmas.C03
